@@ -247,11 +247,11 @@ func coalescedHandshakeCase(r *Recorder, kk bool, min, max byte, recLen int) {
 // "flush" (documented: call Flush until it succeeds) or "rewrite" (it calls Write again with the
 // bytes Write said were not written yet; when that is refused it falls back to Flush). Whatever it
 // does, the reader must end up with exactly the bytes the writer was told had been written.
-func writeRetryCase(r *Recorder, payloadLen, cut int, mode string) {
+func writeRetryCase(r *Recorder, pid string, payloadLen, cut int, mode string) {
 	cli, srv, cc, sc := quickPair()
 	name := fmt.Sprintf("write-retry:len=%d:cut=%d:%s", payloadLen, cut, mode)
 	if cli.Err != nil || srv.Err != nil {
-		r.Violate("C16/setup", fmt.Sprint(cli.Err, srv.Err), name)
+		r.Violate(pid+"/setup", fmt.Sprint(cli.Err, srv.Err), name)
 		return
 	}
 	w := mailbox.VNewNoiseConn(cc, cli.Machine)
@@ -289,6 +289,17 @@ func writeRetryCase(r *Recorder, payloadLen, cut int, mode string) {
 		told += n
 		steps = append(steps, fmt.Sprintf("Flush=%d,%v", n, err))
 	}
+	if told > len(data) {
+		told = len(data)
+	}
+	// the stream goes on: one more record after the episode must arrive as well
+	next := patterned(7, 22)
+	want := append([]byte(nil), data[:told]...)
+	if err == nil {
+		if _, nerr := w.Write(next); nerr == nil {
+			want = append(want, next...)
+		}
+	}
 	cc.wr.close() // nothing more will come
 	var got []byte
 	for {
@@ -298,12 +309,9 @@ func writeRetryCase(r *Recorder, payloadLen, cut int, mode string) {
 		}
 		got = append(got, m...)
 	}
-	if told > len(data) {
-		told = len(data)
-	}
-	if !bytes.Equal(got, data[:told]) {
-		r.Violate("C16/write-retry-duplicates-or-loses", fmt.Sprintf("%d byte Write, transport accepted %d wire bytes then timed out, application %v: it was told %d bytes were written, the reader got %d bytes (equal prefix: %v)",
-			payloadLen, cut, steps, told, len(got), bytes.HasPrefix(got, data[:min(told, len(got))])), name)
+	if !bytes.Equal(got, want) {
+		r.Violate(pid+"/write-retry-duplicates-or-loses", fmt.Sprintf("%d byte Write, transport accepted %d wire bytes then timed out, application %v, then a 7 byte Write: it was told %d bytes were written in all, the reader got %d bytes (equal prefix: %v)",
+			payloadLen, cut, steps, len(want), len(got), bytes.HasPrefix(got, want[:min(len(want), len(got))])), name)
 	}
 	r.Case(name, true, "write-retry/"+mode)
 }
@@ -469,7 +477,7 @@ func TestC16(t *testing.T) {
 	for _, l := range []int{1, 12, 300} {
 		for _, cut := range []int{0, 5, 18, 19, 18 + l, 18 + l + 15} {
 			for _, mode := range []string{"flush", "rewrite"} {
-				writeRetryCase(r, l, cut, mode)
+				writeRetryCase(r, "C16", l, cut, mode)
 			}
 		}
 	}
